@@ -163,6 +163,21 @@ Definition judge_pctor4 (scale : Z) (args : list val) (out : val) : verdict :=
   | _ => JSkip
   end.
 
+(* NaiveDate::and_hms* (deprecated, panicking) on an existing date (year, ordinal): the date is kept, the time
+   is the constructor's reading; PANIC exactly where the constructor accepts nothing *)
+Definition on_date (y o : Z) (v : val) : val :=
+  match v with VSome (VTup [s; f]) => VTup [VInt y; VInt o; s; f] | _ => VPanic end.
+Definition judge_dphms (scale : Z) (args : list val) (out : val) : verdict :=
+  match args with
+  | [VTup [VInt y; VInt o]; a; b; c; d] =>
+      match u32 a, u32 b, u32 c, u32 d with
+      | Some h, Some m, Some s, Some x =>
+          if year_in_range y && valid_yo y o
+          then judge_eq (on_date y o (exp_ctor h m s (x * scale))) out else JSkip
+      | _, _, _, _ => JSkip end
+  | _ => JSkip
+  end.
+
 Definition judge (op : bytes) (args : list val) (out : val) : verdict :=
   if op_is op "ndt.add" then judge_ndt 1 false args out
   else if op_is op "ndt.sub" then judge_ndt (-1) false args out
@@ -239,4 +254,15 @@ Definition judge (op : bytes) (args : list val) (out : val) : verdict :=
                 | Some s, Some n => judge_eq (if accept_secs_nano s n then enc_t s n else VPanic) out
                 | _, _ => JSkip end
     | _ => JSkip end
+  else if op_is op "ndt.phms" then
+    match args with
+    | [VTup [VInt y; VInt o]; a; b; c] =>
+        match u32 a, u32 b, u32 c with
+        | Some h, Some m, Some s =>
+            if year_in_range y && valid_yo y o then judge_eq (on_date y o (exp_ctor h m s 0)) out else JSkip
+        | _, _, _ => JSkip end
+    | _ => JSkip end
+  else if op_is op "ndt.phms_milli" then judge_dphms 1000000 args out
+  else if op_is op "ndt.phms_micro" then judge_dphms 1000 args out
+  else if op_is op "ndt.phms_nano" then judge_dphms 1 args out
   else JSkip.
